@@ -19,7 +19,7 @@ for kd in seeded/*/; do
   dst=/verif/seeded/$id$k
   mkdir -p $dst
   cp /tmp/ingest-$id$k.diff $dst/patch.diff
-  sed "s#\"$wt\"#__import__('os').environ.get('ROBOTOOLS_REPO', '/repo')#; s#'$wt'#__import__('os').environ.get('ROBOTOOLS_REPO', '/repo')#" $kd/demo.py > $dst/demo.py
+  sed "s#\"$wt/\"#__import__('os').environ.get('ROBOTOOLS_REPO', '/repo')#; s#'$wt/'#__import__('os').environ.get('ROBOTOOLS_REPO', '/repo')#; s#\"$wt\"#__import__('os').environ.get('ROBOTOOLS_REPO', '/repo')#; s#'$wt'#__import__('os').environ.get('ROBOTOOLS_REPO', '/repo')#" $kd/demo.py > $dst/demo.py
   cp $kd/meta.json $dst/meta.agent.json
   cp /tmp/ingest-$id$k.with $dst/demo.with.txt; cp /tmp/ingest-$id$k.without $dst/demo.without.txt
   echo "$k: ACCEPTED -> $dst"
